@@ -82,12 +82,16 @@ var HTMLRawTextNoReferences = set(`script style xmp iframe noembed noframes plai
 //	§15.5 details (block), summary (list-item / block), fieldset (block), legend (block)
 //	§15.5.16/17 select: option / optgroup are rendered by the list box, not as flow text
 //	br: forced line break; frameset/frame: not flow content
+// Elements that are not rendered but may stand between words (script, style, template, noscript, link, meta, area,
+// datalist, param, noembed, noframes) are deliberately absent: white space on both sides of them collapses to one
+// space, it does not vanish — `a <style>…</style> b` must not become `a<style>…</style>b`. head, title and base only
+// occur where inter-element white space is not rendered.
 var HTMLBlockLike = set(`
  address blockquote center dialog div figure figcaption footer form header hr legend listing main p plaintext pre search xmp
  article aside h1 h2 h3 h4 h5 h6 hgroup nav section
  dir dd dl dt menu ol ul li
  table caption colgroup col thead tbody tfoot tr td th
- area base basefont datalist head link meta noembed noframes param rp script style template title noscript
+ head title base
  html body
  details summary fieldset
  option optgroup
